@@ -445,3 +445,44 @@ V('c15-fix-validate-reference', 'C15', 'hl7apy/core.py',
   "        return Validator.validate(self, reference=self.reference, report_file=report_file, return_errors=return_errors)",
   "        return Validator.validate(self, reference=getattr(self, 'reference', None), report_file=report_file,\n                                  return_errors=return_errors)",
   expect='fixed:C15-A|core.Element.validate')
+
+# ---------------------------------------------------------------- C16
+V('c16-to-mllp-order', 'C16', 'hl7apy/core.py', 'return "{0}{1}{2}{3}{2}".format(MLLP_ENCODING_CHARS.SB,',
+  'return "{0}{1}{3}{2}".format(MLLP_ENCODING_CHARS.SB,', rule='C16-F')
+V('c16-consts-eb', 'C16', 'hl7apy/consts.py', "    EB = '\\x1c'", "    EB = '\\x1d'", rule='C16-F')
+V('c16-handler-eb', 'C16', 'hl7apy/mllp.py', '        self.eb = b"\\x1c"', '        self.eb = b"\\x1d"', rule='C16-F')
+V('c16-regex-single-line', 'C16', 'hl7apy/mllp.py', 'r"(([^\\r]+\\r)*([^\\r]+\\r?))"', 'r"([^\\r]+\\r?)"', rule='C16-F')
+V('c16-regex-no-anchor-cr', 'C16', 'hl7apy/mllp.py',
+  "self.eb.decode('ascii'), self.cr.decode('ascii')]))", "self.eb.decode('ascii')]))", rule='C16-F')
+V('c16-end-seq-eb-only', 'C16', 'hl7apy/mllp.py', "        end_seq = self.eb + self.cr", "        end_seq = self.eb + self.eb", rule='C16-F')
+V('c16-no-close-after-reply', 'C16', 'hl7apy/mllp.py',
+  "                self.wfile.write(response.encode(self.encoding))\n        self.request.close()",
+  "                self.wfile.write(response.encode(self.encoding))\n                return\n        self.request.close()", rule='C16-H')
+V('c16-reply-twice', 'C16', 'hl7apy/mllp.py',
+  "                self.wfile.write(response.encode(self.encoding))\n        self.request.close()",
+  "                self.wfile.write(response.encode(self.encoding))\n                self.wfile.write(response.encode(self.encoding))\n        self.request.close()",
+  rule='C16-H')
+V('c16-route-unextracted', 'C16', 'hl7apy/mllp.py',
+  "        message = self._extract_hl7_message(line.decode(self.encoding))\n        if message is not None:",
+  "        message = self._extract_hl7_message(line.decode(self.encoding))\n        if message is None:\n            message = line.decode(self.encoding)\n        if message is not None:",
+  rule='C16-H')
+V('c16-first-byte-ignored', 'C16', 'hl7apy/mllp.py',
+  "        if line[:1] != self.sb:  # First MLLP char\n            self.request.close()\n            return\n", "", rule='C16-H')
+V('c16-lookup-wrong-key', 'C16', 'hl7apy/mllp.py',
+  "                handler, args = self.handlers[msg_type][0], self.handlers[msg_type][1:]",
+  "                handler, args = self.handlers[msg][0], self.handlers[msg][1:]", rule='C16-R')
+V('c16-unsupported-swallowed', 'C16', 'hl7apy/mllp.py',
+  "            except KeyError:\n                raise UnsupportedMessageType(msg_type)", "            except KeyError:\n                return ''",
+  rule='C16-R')
+V('c16-recv-in-loop', 'C16', 'hl7apy/mllp.py',
+  "                char = self.rfile.read(1)\n                if not char:\n                    break\n                line += char",
+  "                char = self.request.recv(1)\n                if not char:\n                    break\n                line += char", rule='C16-C')
+V('c16-handler-registers-type', 'C16', 'hl7apy/mllp.py',
+  "            h = self._create_handler(handler, msg, args)\n            return h.reply()",
+  "            h = self._create_handler(handler, msg, args)\n            self.server.last_type = msg_type\n            return h.reply()",
+  rule='C16-T')
+V('c16-module-counter', 'C16', 'hl7apy/mllp.py',
+  "    def handle(self):\n        end_seq = self.eb + self.cr", "    def handle(self):\n        global _CONNECTIONS\n        _CONNECTIONS = 1\n        end_seq = self.eb + self.cr",
+  rule='C16-T')
+V('c16-twin-recv-size', 'C16', 'hl7apy/mllp.py', "            line = self.request.recv(3)", "            line = self.request.recv(1)",
+  expect='clean')
